@@ -16,7 +16,7 @@ FILES = ['duck_triangles.dae', 'duck_polylist.dae', 'trifans.dae', 'tristrips.da
          'empty_triangles_with_multiple_ns.dae']
 NS_FILE = 'wam.dae'          # non-default namespace: known finding
 LIBNAMES = ['geometries', 'lights', 'cameras', 'effects', 'materials', 'nodes', 'scenes', 'images']
-HOWS = ['add', 'remove', 'replace', 'permute', 'reverse', 'move']
+HOWS = ['add', 'remove', 'replace', 'permute', 'permute', 'reverse', 'move']
 
 
 def gen_op(rng, force_adjacent=False):
@@ -64,33 +64,82 @@ def gen_op(rng, force_adjacent=False):
     return dict(base, op='attr', what=rng.choice(['light', 'camera', 'material', 'effect', 'effect', 'image', 'asset']))
 
 
+def gen_cycle(rng):
+    """a managed collection driven through its extreme states with a save at each of them:
+    fill, SAVE, empty, SAVE, refill, SAVE (the selectors stay fixed so that the same collection is
+    addressed throughout)"""
+    R = lambda: rng.randrange(1 << 30)
+    P = rng.randrange(0, 64)
+    P2 = rng.randrange(0, 64)
+    kind = rng.choice(['lib', 'lib', 'prims', 'tr', 'ch', 'scene', 'bm', 'bm', 'bvi', 'eparams'])
+    lib = rng.choice(LIBNAMES)
+
+    def step(how):
+        b = {'r': R(), 'pos': P, 'pos2': P2, 'pos3': 0, 'n': rng.choice([1, 2, 3])}
+        if kind == 'lib':
+            return dict(b, op='lib', lib=lib, how=how)
+        if kind == 'prims':
+            return dict(b, op='geom', gi=P, how='prim_' + how, kind=None)
+        if kind == 'tr':
+            return dict(b, op='node', ni=P, how='tr_' + how, kind=None)
+        if kind == 'ch':
+            return dict(b, op='node', ni=P, how='ch_' + how, what=rng.choice(['node', 'geom', 'light', 'camera']))
+        if kind == 'scene':
+            return dict(b, op='scene', si=P, how='sn_' + how)
+        if kind == 'bm':
+            return dict(b, op='bind', gi=P, how='bm_' + how)
+        if kind == 'bvi':
+            return dict(b, op='bind', gi=P, how='bvi_' + how)
+        return dict(b, op='eparams', how=how)
+    sv = lambda: {'op': rng.choice(['save', 'save', 'write'])}
+    seq = [step('fill'), sv(), step('clear'), sv(), step('fill'), sv()]
+    if rng.random() < 0.3:
+        seq += [step('clear'), sv()]
+    return seq[rng.choice([0, 0, 2]):]
+
+
 def gen_case(rng, maxlen, files_fraction=0.2):
     if rng.random() < files_fraction:
         base = {'kind': 'file', 'name': rng.choice(FILES)}
     else:
         base = {'kind': 'gen', 'seed': rng.randrange(1 << 30), 'size': rng.choice([1, 2, 2, 3])}
+        if rng.random() < 0.3:
+            # loaded with the members of its libraries spread over two library elements of a kind
+            base['split'] = rng.randrange(1 << 30)
+            base['size'] = rng.choice([2, 3, 4])
     n = rng.randint(1, maxlen)
     ops = []
     adjacent_at = rng.randrange(n) if rng.random() < 0.3 else -1     # a fixed fraction forces >= 2 adjacent removals
     for i in range(n):
         ops.append(gen_op(rng, force_adjacent=(i == adjacent_at)))
+    if rng.random() < 0.35:
+        at = rng.randint(0, len(ops))
+        ops[at:at] = gen_cycle(rng)
     if base['kind'] == 'gen' or rng.random() < 0.5:
         # loaded/constructed documents usually start from a saved state
         ops.insert(0, {'op': 'save'}) if rng.random() < 0.5 else None
     return {'base': base, 'ops': ops}
 
 
-def exhaustive_cases(maxold):
-    """every single save after replacing a collection of <= maxold saved members by any arrangement
-    (sub-multiset, permutation) of the old members and up to two fresh ones, at four sites"""
+EXH_SITES = ('scene', 'node_tr', 'node_ch', 'library', 'bind', 'bvi', 'prims', 'params')
+
+
+def exhaustive_cases(maxold, maxperm):
+    """(a) every single save after replacing a collection of <= maxold saved members by any arrangement
+    (sub-multiset, permutation) of the old members and up to two fresh ones; (b) every pure reorder
+    (all k! permutations, no additions) of k <= maxperm saved members - at every reconciliation site"""
     import itertools
-    for site in ('scene', 'node_tr', 'node_ch', 'library'):
+    for site in EXH_SITES:
         for k in range(maxold + 1):
             items = list(range(k)) + ['f0', 'f1']
             for m in range(len(items) + 1):
                 for new in itertools.permutations(items, m):
                     yield {'base': {'kind': 'exh', 'site': site, 'old': k},
                            'ops': [{'op': 'save'}, {'op': 'exh_set', 'site': site, 'new': list(new)}]}
+        for k in range(maxold + 1, maxperm + 1):
+            for new in itertools.permutations(range(k)):
+                yield {'base': {'kind': 'exh', 'site': site, 'old': k},
+                       'ops': [{'op': 'save'}, {'op': 'exh_set', 'site': site, 'new': list(new)}]}
 
 
 # ---------------------------------------------------------------- Coq encoding
@@ -179,7 +228,7 @@ def run(ctx):
     nrand = 700 if quick else 4000
     for _ in range(nrand):
         cases.append(gen_case(ctx.rng, 12 if quick else 40))
-    exh = list(exhaustive_cases(2 if quick else 4))
+    exh = list(exhaustive_cases(2, 5) if quick else exhaustive_cases(4, 6))
     cases.extend(exh)
     ctx.log('running %d edit histories on the implementation' % len(cases))
     results = run_cases(cases)
@@ -202,7 +251,9 @@ def run(ctx):
         'distinct_nontrivial': len(seen),
         'rule': 'edit histories over documents built through the public constructors (random libraries, nested nodes, '
                 'instances, bindings) and over the loadable shipped files; every level and every edit kind, positions '
-                'uniform, >= 2 adjacent removals forced in 30 % of the histories, saves interleaved; compared in Coq: '
+                'uniform, >= 2 adjacent removals forced in 30 % of the histories, saves interleaved at random points and at the extreme states '
+                '(fill, save, empty, save, refill, save) of a collection in 35 %; 30 % of the constructed documents are written, their libraries '
+                'split into two elements of a kind, and loaded again; compared in Coq: '
                 'for every save and every reconciliation site py_sync(old children, objects\' nodes) = children after, '
                 'and the label tree read independently from the written bytes = emit_skel of the edited model; '
                 'non-trivial = at least two operations and at least one observed reconciliation; distinct = different history',
@@ -213,8 +264,8 @@ def run(ctx):
         'exhaustive': not quick,
     }
     corr['distribution']['exhaustive_single_save_cases'] = len(exh)
-    corr['distribution']['exhaustive_slice'] = ('all arrangements of <= %d saved members and <= 2 fresh ones at the sites scene, '
-                                                'node transforms, node children, library' % (2 if quick else 4))
+    corr['distribution']['exhaustive_slice'] = ('all arrangements of <= %d saved members and <= 2 fresh ones, and all k! pure reorders of '
+                                                'k <= %d saved members, at the sites %s' % (((2, 5) if quick else (4, 6)) + (', '.join(EXH_SITES),)))
 
     def search(mm):
         extra = [m['input'] for m in mm] + [gen_case(ctx.rng, 20) for _ in range(300)]
